@@ -29,6 +29,7 @@ def shards(tier, seed):
     for c in lib.pick_curves(tier, seed, extra=3, pool=pool):
         out.append(("prod_%s" % c.name, dict(kind="prod", cname=c.name, rounds=(2 if c.order.bit_length() > 300 else 3) if q else 30)))
     out.append(("child_opt_prod", dict(kind="prod", cname="BRAINPOOLP160r1", rounds=1, _pyopt="opt+hashseed")))
+    out.append(("child_bb_prod", dict(kind="prod", cname="SECP128r1", rounds=1, _pyopt="bb")))
     ts = sigs.toy_prime_curves(7, 19 if q else 47)
     k = 4 if q else 12
     for t in ts[:: max(1, len(ts) // k)][:k]:
